@@ -54,6 +54,9 @@ def run(P, rep, tier):
     from . import c07
 
     rep.attempt(c07.r6_children_index, P, rep, ctx)
+    # package / schema records are removed exactly when unused: the emptiness tests look at the stored group itself
+    # (cleanup rule of C06.R4)
+    rep.attempt(c06.r4_cleanup, P, rep, ctx)
     rep.floor("C20.R1", 12)
     rep.floor("C20.R2", 12)
     rep.floor("C20.R3", 18)
